@@ -860,7 +860,7 @@ def gen_table(rng: random.Random, kind: str, intensify: bool = False) -> dict:
         elif t == "int":
             vals, dt = [rng.randint(-5, 500) for _ in range(n)], "int64"
         else:
-            vals, dt = [rng.choice(["a", "b", "wt", "mut", "x y", "7"]) for _ in range(n)], "str"
+            vals, dt = [rng.choice(["a", "b", "wt", "mut", "x y", "7", "#ff00aa", "clone #1"]) for _ in range(n)], "str"
         cols.append((cname, dt, vals))
         nm[key] = cname
     # list-mapped custom properties
